@@ -169,6 +169,11 @@ EXTRA = [
   'what': "streaming decoder on a stream that was closed inside a multi-octet read (tag+length known, fewer contents octets than announced, or half of an end-of-octets pair): every retry gets the same short read, rewinds and reports underrun again, so EndOfStreamError is never raised; only a cut on a read boundary (the next read returns b'') is recognised as end of stream",
   'why_open': "the substrate protocol cannot tell 'fewer octets because the rest has not arrived' from 'fewer octets because the stream ended' on a short read; telling them apart needs an extra probing read, which would break callers that grow an io.BytesIO between retries (b'' is not final there) - not a small, safe change",
   'witness': "('c06', ('octs',), b'abc', 'BER', '0403616263', 3, 'spec', 'seekable-double')"},
+ {'id': 'KF-C05-closed-mid-read', 'status': 'open', 'property': 'C05',
+  'symptom': ['terminal-differs:underrun-instead-of-raised:EndOfStreamError'], 'zone': ['damaged'],
+  'what': "the same mechanism as KF-C06-closed-mid-read, seen by C05's damaged-stream arm (an extension beyond the property's quantifier, which speaks of streams of valid encodings): a damaged stream whose last element announces more contents than the stream holds ends, on complete input, with EndOfStreamError; fed in pieces, the read that straddles the end of the data comes back short, the decoder rewinds and reports underrun, and every retry after the stream was closed does the same, so the error the complete input raises never comes",
+  'why_open': "see KF-C06-closed-mid-read",
+  'witness': "('c05', ('tag', 'I', 'C', 6, ('tag', 'E', 'C', 4294967296, ('octs',))), 'BER', 'a6132484ffffffff0405303030303004053030303030040130a680248024800402ffff048400000002ffff00000401ff0401ff0401ff00000000a60c040aff0200a0a0000024ffff', 'seekable', 'short', (64, 8), (), True, False, ('tag', 'I', 'C', 6, ('tag', 'E', 'C', 4294967296, ('octs',))))"},
 ]   # hand-written entries (dicts) for findings outside the families
 
 
